@@ -191,6 +191,10 @@ Definition model_case6 (mode : Z) (keys : list keyrow) (seals : list sealrow)
      end)
     (match pred with CAccept _ pt _ => pt | _ => [] end)
     (match pred with CAccept _ _ pl => pl | _ => [] end)
+    (match pred with
+     | CAccept k _ _ => match key_at keys k with Some kr => k_goid kr | None => [] end
+     | _ => []
+     end)
     (match pr with Some _ => 1 | None => 0 end)
     (match pr with Some (_, rid, _) => rid | None => [] end).
 
@@ -223,11 +227,11 @@ Theorem monitor_accepts_model_l : forall mode keys seals env dom kdec,
   monitor6 (model_case6 mode keys seals env dom kdec) = [].
 Proof.
   intros mode keys seals env dom kdec Hwf. apply monitor6_intro; unfold model_case6;
-    cbn [c_res c_prres c_asigner c_apt c_apl c_dom c_seals c_keys c_recid];
+    cbn [c_res c_prres c_asigner c_apt c_apl c_aid c_dom c_seals c_keys c_recid];
     set (kd := oracle_key_dec kdec); set (vf := table_verify seals);
     set (idk := fun k : Z => match key_at keys k with Some kr => k_goid kr | None => [] end).
   - (* accepted: the seal that made table_verify true is the witness *)
-    intros Hres. unfold sealed_as_accepted. cbn [c_res c_prres c_asigner c_apt c_apl c_dom c_seals c_keys c_recid].
+    intros Hres. unfold sealed_as_accepted. cbn [c_res c_prres c_asigner c_apt c_apl c_aid c_dom c_seals c_keys c_recid].
     destruct (consume Z kd vf env dom) as [k pt pl| |] eqn:C; try discriminate.
     unfold consume in C. destruct (unmarshal_envelope Z kd env) as [[k' e]|] eqn:U; [|discriminate].
     destruct (vf k' (make_unsigned dom (e_pt e) (e_pl e)) (e_sg e)) eqn:V; [|discriminate].
@@ -246,7 +250,7 @@ Proof.
     split; [reflexivity|].
     destruct (record_peer_id pl) as [rid|] eqn:R; [|discriminate].
     destruct (bytes_eqb rid (idk k)) eqn:E; [|discriminate].
-    unfold id_is_signers. cbn [c_res c_prres c_asigner c_apt c_apl c_dom c_seals c_keys c_recid].
+    unfold id_is_signers. cbn [c_res c_prres c_asigner c_apt c_apl c_aid c_dom c_seals c_keys c_recid].
     apply bytes_eqb_eq in E. unfold idk in E.
     destruct (key_at keys k) as [kr|] eqn:Hkr.
     + apply existsb_exists. exists kr. split; [eapply key_at_in; exact Hkr|].
